@@ -21,6 +21,7 @@ type Lemma struct {
 	Induct   string
 	Triggers []string // Go expression texts
 	Props    []string
+	Measure  string // optional: induction on this integer expression (must be >= 0 for the hypothesis to apply)
 	When     string // spec function whose use activates the lemma (default: head of the first trigger)
 }
 
@@ -48,6 +49,8 @@ func (w *World) collectLemmas() error {
 					l.Props = strings.Split(f[6:], ",")
 				case strings.HasPrefix(f, "when="):
 					l.When = f[5:]
+				case strings.HasPrefix(f, "measure="):
+					l.Measure = f[8:]
 				}
 			}
 			if len(l.Triggers) == 0 {
@@ -212,11 +215,21 @@ func (w *World) verifyLemma(key string, opt Options) *FnResult {
 		}
 		kvars[l.Induct] = Val{S: k, T: iv.T}
 		kbody, _ := l.translate(cx, kvars)
-		lt := "<"
+		lt, le := "<", "<="
 		if cx.bv {
-			lt = "bvslt"
+			lt, le = "bvslt", "bvsle"
 		}
-		script = append(script, entry{kind: 'a', text: fmt.Sprintf("(forall ((%s %s)) (=> (%s %s %s) %s))", k, cx.intSort(), lt, k, iv.S, kbody)})
+		if l.Measure != "" {
+			mx, err := parser.ParseExpr(l.Measure)
+			if err != nil {
+				panic(unsupported("lemma measure: " + err.Error()))
+			}
+			mj := (&Env{cx: cx, vars: vars}).triggerExpr(mx, l.Fn)
+			mk := (&Env{cx: cx, vars: kvars}).triggerExpr(mx, l.Fn)
+			script = append(script, entry{kind: 'a', text: fmt.Sprintf("(forall ((%s %s)) (=> (and (%s %s %s) (%s %s %s)) %s))", k, cx.intSort(), le, cx.num(0), mk, lt, mk, mj, kbody)})
+		} else {
+			script = append(script, entry{kind: 'a', text: fmt.Sprintf("(forall ((%s %s)) (=> (%s %s %s) %s))", k, cx.intSort(), lt, k, iv.S, kbody)})
+		}
 	}
 	script = append(script, entry{kind: 'c', name: "lemma", text: body, site: key})
 	x.paths = [][]entry{script}
